@@ -119,7 +119,8 @@ func (g *generator) ignoreComment() string {
 }
 
 // commented-out annotations and other-case keywords followed by the lowercase keyword: used as doc lines
-var nearMissDocs = []string{"//\u00a0@immutable", "// \u3000@testonly", "// \u00a0 @constructor NewNb", "// @immutable\u00a0", "// @packageonly\u2003svc",
+var nearMissDocs = []string{"//  * @immutable", "// * @testonly", "//   * @constructor NewStar", "//*@packageonly svc", "// @test covered by TestReset", "// @imm", "// @im", "// @t helper", "// @mut", "// @package internal", "// @const NewK", "// @implement io.Reader",
+	"//\u00a0@immutable", "// \u3000@testonly", "// \u00a0 @constructor NewNb", "// @immutable\u00a0", "// @packageonly\u2003svc",
 	"/*\nExample of use:\n\t// @immutable\n\t// @constructor NewSnapshot\n\t// @testonly\n*/", "// @immutables are a convention here", "// @immutableByConvention", "// @constructors NewX", "// @testonlyish helper", "// @packageonlysvc", "// @mutablefields", "// // @immutable", "// / @constructor NewNothing", "//\t// @packageonly nobody", "// // @testonly",
 	"// @Immutable is what the original says; the marker @immutable is not applied here", "// @TESTONLY (see @testonly)", "// @Constructor NewX - not @constructor NewX",
 	"// @PackageOnly svc, unlike @packageonly svc"}
@@ -870,7 +871,7 @@ func (g *generator) renderPkg(m *Module, p *gpkg, decls []*gpkg) {
 		for _, cn := range t.ctors {
 			var b []string
 			if t.kind == 0 {
-				b = []string{"p := &" + t.name + "{X: 1} " + g.nextTag(), "p.X = 2 " + g.nextTag(), "p.Items = append(p.Items, 1) " + g.nextTag(), "var z " + t.name + " " + g.nextTag(), "_ = z",
+				b = []string{"var helper = func() int { return 1 }", "_ = helper", "p := &" + t.name + "{X: 1} " + g.nextTag(), "p.X = 2 " + g.nextTag(), "p.Items = append(p.Items, 1) " + g.nextTag(), "var z " + t.name + " " + g.nextTag(), "_ = z",
 					// function literals inside the constructor are part of it
 					"func() { p.X = 3 " + g.nextTag() + " }()", "defer func() { var y " + t.name + " " + g.nextTag() + "; y.X++ " + g.nextTag() + " }()",
 					"init := func() *" + t.name + " { return new(" + t.name + ") " + g.nextTag() + " }", "_ = init", "go func() { _ = []" + t.name + "{{X: 1}} " + g.nextTag() + " }()",
